@@ -325,6 +325,16 @@ def derived_docs(c, node, size):
                 continue
             if tr.steps:
                 out.append(tr.doc)
+    # documents that share the very same content Fragment object: another top node around it, a changed document
+    # attribute (positions resolved in one must not be answered from what was resolved in the other)
+    try:
+        out.append(node.type.create({a: 7 for a in node.attrs} or None, node.content, node.marks))
+        for a in node.attrs:
+            tr = tr_cls(node)
+            tr.set_doc_attribute(a, "changed")
+            out.append(tr.doc)
+    except Exception:  # noqa: BLE001
+        pass
     for p in range(1, size):
         try:
             out.append(node.cut(p))
